@@ -158,6 +158,7 @@ struct World {
     int session;
     int cur;                    // index of the op being executed
     Node last; bool have_last;
+    std::map<std::string, std::string> last_upd;   // C08 lane: modification times at the last observation
     std::map<std::string, ArrModel> arr;
     std::map<std::string, std::vector<DimModel> > dims;
     std::map<std::string, PropModel> prop;
